@@ -694,6 +694,23 @@ func (f *frame) specCall(x *SCall, env *specEnv) sval {
 		}
 		return sval{e: t.boxPtr(v.e, t.eng.typeID(v.typ)), typ: types.NewInterfaceType(nil, nil)}
 	}
+	if strings.HasPrefix(x.Fun, "is_") && x.Fun != "is_nil_iface" && len(x.Args) == 1 {
+		// is_T(iface): the interface value holds a *T
+		var pkg *types.Package
+		if env.fn != nil && env.fn.Pkg != nil {
+			pkg = env.fn.Pkg.Pkg
+		} else if env.fn != nil && env.fn.Parent() != nil {
+			pkg = env.fn.Parent().Pkg.Pkg
+		}
+		if pkg != nil {
+			if obj := pkg.Scope().Lookup(strings.TrimPrefix(x.Fun, "is_")); obj != nil {
+				pt := types.NewPointer(obj.Type())
+				v := arg(0)
+				return sval{e: And(Not(Eq(v.e, th.AddrLit(0))), Eq(mk("dyntype", SInt, v.e), IntLit(t.eng.typeID(pt)))), typ: boolT}
+			}
+		}
+		specFail("unknown type in %s", x.Fun)
+	}
 	if x.Fun == "is_nil_iface" {
 		return sval{e: Eq(arg(0).e, th.AddrLit(0)), typ: boolT}
 	}
